@@ -166,7 +166,7 @@ def strategy():
         },
         faulty,
         st.lists(st.integers(0, 20), max_size=5),
-        extractor_specs(),
+        extractor_specs(allow_none=True),
         st.booleans(),
         st.sampled_from([False, False, False, True]),
         st.integers(0, 4),
